@@ -340,6 +340,20 @@ func (b *Body) loopKeyMatches(lp *Loop, key string) bool {
 		if want == lp.RangeOf {
 			return true
 		}
+		// the ranged operand is a contract-named local that was renamed (same type, new name)
+		if b.ft.e.names != nil {
+			table := b.ft.e.names[b.ft.fn.String()]
+			if wantT := table[want]; wantT != "" && !strings.HasPrefix(want, "$") {
+				oldLocals := map[string]bool{}
+				for _, n := range strings.Split(table["$locals"], ",") {
+					oldLocals[n] = true
+				}
+				y := lp.RangeOf
+				if !oldLocals[y] && table[y] == "" && localTypeString(b.fn, y) == wantT {
+					return true
+				}
+			}
+		}
 		// the ranged operand mentions a parameter that was renamed since the unchanged tree
 		if old := b.ft.e.oldParams(b.ft.fn.String()); old != nil {
 			for i, p := range b.ft.fn.Params {
@@ -600,4 +614,33 @@ func (b *Body) safety(kind string, reach *T, goal *T, pos token.Pos, what string
 	}
 	n := ft.count("safety:" + kind)
 	ft.oblige(&Obligation{Name: fmt.Sprintf("safety:%s#%d", kind, n), Kind: "safety", Tags: tags, Guard: reach, Goal: goal, Src: what, Pos: ft.pos(pos)})
+}
+
+// localTypeString: the Go type of the local with that source name ("" if unknown or ambiguous).
+func localTypeString(fn *ssa.Function, name string) string {
+	out := ""
+	for _, blk := range fn.Blocks {
+		for _, in := range blk.Instrs {
+			t := ""
+			switch x := in.(type) {
+			case *ssa.DebugRef:
+				if x.Object() != nil && x.Object().Name() == name {
+					t = types.TypeString(x.Object().Type(), nil)
+				}
+			case *ssa.Alloc:
+				if x.Comment == name {
+					if p, ok := types.Unalias(x.Type()).Underlying().(*types.Pointer); ok {
+						t = types.TypeString(p.Elem(), nil)
+					}
+				}
+			}
+			if t != "" {
+				if out != "" && out != t {
+					return ""
+				}
+				out = t
+			}
+		}
+	}
+	return out
 }
